@@ -21,6 +21,7 @@ type Opts struct {
 	ExtraImps   bool // imports that are unused / wildcard / static (C06)
 	Anon        bool // anonymous classes as arguments (new Runnable() { public void run() { ... } })
 	DupNames    bool // some classes share their simple name with a class of another package and are referenced through a wildcard import (metamorphic checks only)
+	Wide        bool // further statement and expression forms: do-while, try-with-resources, synchronized, throw, ternary, casts, super calls, block lambdas, several declarators
 	MaxMethods  int  // default 5
 	NoCtors     bool
 }
